@@ -465,9 +465,32 @@ def isolated_main(path_in, path_out):
     common.pin_environment()
     job = json.load(open(path_in))
     out = {}
+    # warm up: import the library once; every operation then runs in its OWN forked child on a freshly built pool, so that no module-level
+    # state (a memo, an lru_cache, a default-argument object) left by one isolated evaluation can reach another
+    import importlib
+    for m in ('netgen', 'circgen', 'ssrun', 'exact', 'matplotlib.pyplot', 'scipy.signal', 'CircuitCalculator.Network.transformers',
+              'CircuitCalculator.Network.loaders', 'CircuitCalculator.Network.NodalAnalysis.bias_point_analysis',
+              'CircuitCalculator.Network.NodalAnalysis.state_space_model', 'CircuitCalculator.dump_load', 'CircuitCalculator.Circuit.circuit',
+              'CircuitCalculator.Circuit.solution', 'CircuitCalculator.Circuit.impedance', 'CircuitCalculator.Circuit.state_space_model',
+              'CircuitCalculator.SimpleSimulation.schematic', 'CircuitCalculator.SimpleSimulation.simulator',
+              'CircuitCalculator.SimpleCircuit.DiagramTranslator', 'CircuitCalculator.SimpleCircuit.dump_load',
+              'CircuitCalculator.SignalProcessing.periodic_functions'):
+        importlib.import_module(m)          # imports only: nothing of the library is CALLED in the parent
     for op in job['ops']:
-        pool = build_pool(job['pool_seed'])
-        out[json.dumps(op)] = run_op(pool, op)
+        r, w = os.pipe()
+        pid = os.fork()
+        if pid == 0:
+            try:
+                os.close(r)
+                res = run_op(build_pool(job['pool_seed']), op)
+                with os.fdopen(w, 'w') as f:
+                    f.write(res)
+            finally:
+                os._exit(0)
+        os.close(w)
+        with os.fdopen(r) as f:
+            out[json.dumps(op)] = f.read()
+        os.waitpid(pid, 0)
     json.dump(out, open(path_out, 'w'))
 
 
